@@ -107,8 +107,8 @@ def lan_spec(draw, avoid_storm=False):
     return b.spec
 
 
-MUTATIONS = ["drop", "decoy_specific", "decoy_general", "metric_worse", "metric_better", "tie", "nh_host", "none",
-             "none"]
+MUTATIONS = ["drop", "decoy_specific", "decoy_specific", "decoy_general", "metric_worse", "metric_better", "tie",
+             "nh_host"]
 
 
 @st.composite
@@ -169,10 +169,8 @@ def routed_spec(draw, avoid_storm=False, nr=None):
     # mutations
     muts = []
     if nr > 1:
-        for _ in range(draw(st.integers(0, 2))):
+        for _ in range(draw(st.sampled_from([0, 1, 1, 2, 2, 3]))):
             m = draw(st.sampled_from(MUTATIONS))
-            if m == "none":
-                continue
             i = draw(st.integers(0, nr - 1))
             r = routers[i]
             remote = [lan for lan in lans if lan["r"] != i]
